@@ -1148,7 +1148,7 @@ Fixpoint ldec_intervals (cs : list hcoder) (ws : list Z) (psv p pt : Z) (ncomp :
 Record lstate := {
   ls_sof : option (Z * Z * Z * list fcomp);            (* P, Y, X, comps *)
   ls_dc : list (option hcoder); ls_ri : Z;
-  ls_out : list (nat * Z * PM.t Z)                      (* frame comp index, array width, samples *)
+  ls_out : list (nat * Z * Z * PM.t Z)                  (* frame comp index, array width, Pt, samples *)
 }.
 Definition ls0 : lstate := {| ls_sof := None; ls_dc := repeat None 4; ls_ri := 0; ls_out := [] |}.
 
@@ -1185,7 +1185,7 @@ Definition l_step (st : lstate) (s : segment) : option lstate :=
             Some {| ls_sof := ls_sof st; ls_dc := ls_dc st; ls_ri := ls_ri st;
                     ls_out := ls_out st ++
                       map (fun ja : (nat * Z * Z * Z * Z) * (Z * PM.t Z) =>
-                             let '((i, _, _, _, _), (w, m)) := ja in (i, w, m)) (combine info (combine ws arrs)) |}
+                             let '((i, _, _, _, _), (w, m)) := ja in (i, w, al, m)) (combine info (combine ws arrs)) |}
           end
         end
       end
@@ -1207,12 +1207,11 @@ Definition t81_decode_lossless (s : stream) : option (list (Z * Z * list Z)) :=
     | None => None
     | Some (p, y, x, fc) =>
       let g := geom_of y x fc in
-      let pt := fold_left (fun acc fs => match snd fs with SegSOS _ _ _ _ al _ _ => al | _ => acc end) (st_segs s) 0 in
       map_opt (fun ic : nat * fcomp =>
                  let '(i, (_, h, v, _)) := ic in
-                 match find (fun o : nat * Z * PM.t Z => let '(i', _, _) := o in Nat.eqb i i') (ls_out st) with
+                 match find (fun o : nat * Z * Z * PM.t Z => let '(i', _, _, _) := o in Nat.eqb i i') (ls_out st) with
                  | None => None
-                 | Some (_, w, m) =>
+                 | Some (_, w, pt, m) =>
                      Some (comp_ws g h, comp_hs g v,
                            flat_map (fun r => map (fun c => lget m w r c * 2 ^ pt) (zrange (comp_ws g h))) (zrange (comp_hs g v)))
                  end)
@@ -1446,4 +1445,84 @@ Definition t81_decode_progressive (s : stream) : option (list comp_coefs) :=
                                            (zrange (comp_wb g h))) (zrange (comp_hb g v))))
                 (combine (seq 0 (length fc)) fc))
     end
+  end.
+
+(* ------------------------------------------------------------ lossless writer *)
+(* H.1.2: DIFF = (sample>>Pt - Px) mod 2^16 as a value in -32767..32768; SSSS = 16 for 32768 *)
+Definition ldiff (s px : Z) : Z := let d := (s - px) mod 65536 in if d >? 32768 then d - 65536 else d.
+Definition enc_diff (c : hcoder) (d : Z) : option (list bool) :=
+  if d =? 32768 then hc_enc c 16
+  else match hc_enc c (category d) with Some b => Some (b ++ extra_bits d) | None => None end.
+
+Fixpoint lenc_samples (cs : list hcoder) (ws : list Z) (psv p pt : Z) (row0 : list Z)
+         (pos : list (nat * Z * Z)) (arrs : list (PM.t Z)) : option (list bool) :=
+  match pos with
+  | [] => Some []
+  | (j, r, c) :: t =>
+    let m := nth j arrs (PM.empty Z) in let w := nth j ws 1 in
+    let px := if r =? nth j row0 0 then (if c =? 0 then 2 ^ (p - pt - 1) else lget m w r (c - 1))
+              else if c =? 0 then lget m w (r - 1) c
+              else predict psv (lget m w r (c - 1)) (lget m w (r - 1) c) (lget m w (r - 1) (c - 1)) in
+    match enc_diff (nth j cs none_coder) (ldiff (lget m w r c) px), lenc_samples cs ws psv p pt row0 t arrs with
+    | Some a, Some b => Some (a ++ b)
+    | _, _ => None
+    end
+  end.
+
+Record limage := { li_p : Z; li_y : Z; li_x : Z; li_comps : list fcomp; li_samples : list (list Z) }.
+Inductive litem :=
+| LMisc (fill : nat) (s : segment)
+| LFrame (fill : nat)
+| LScan (fill : nat) (sc : list scomp) (psv pt : Z) (rst_fill : list nat).
+
+Definition pm_of_list (l : list Z) (pt : Z) : PM.t Z :=
+  snd (fold_left (fun (a : positive * PM.t Z) v => (Pos.succ (fst a), PM.add (fst a) (v / 2 ^ pt) (snd a))) l (1%positive, PM.empty Z)).
+
+Definition lw_step (im : limage) (st : lstate) (it : litem) : option (lstate * (nat * segment)) :=
+  match it with
+  | LMisc f s =>
+      match s with
+      | SegSOF _ _ _ _ _ | SegSOS _ _ _ _ _ _ _ => None
+      | _ => match l_step st s with Some st' => Some (st', (f, s)) | None => None end
+      end
+  | LFrame f =>
+      let s := SegSOF 3 (li_p im) (li_y im) (li_x im) (li_comps im) in
+      match l_step st s with Some st' => Some (st', (f, s)) | None => None end
+  | LScan f sc psv pt rf =>
+      match ls_sof st with
+      | None => None
+      | Some (p, y, x, fc) =>
+        match scan_info fc sc with
+        | None => None
+        | Some info =>
+          let g := geom_of y x fc in
+          let hv := map (fun i : nat * Z * Z * Z * Z => let '(_, h, v, _, _) := i in (h, v)) info in
+          let cs := map (fun i : nat * Z * Z * Z * Z => let '(_, _, _, td, _) := i in get_coder (ls_dc st) td) info in
+          let ws := map (fun q : Z * Z => lscan_w g hv (fst q)) hv in
+          let arrs := map (fun i : nat * Z * Z * Z * Z => let '(fi, _, _, _, _) := i in
+                             pm_of_list (nth fi (li_samples im) []) pt) info in
+          let ivs := map (fun l => concat l) (intervals (ls_ri st) (lscan_mcus g hv)) in
+          match map_opt (fun pos => option_map pack (lenc_samples cs ws psv p pt (first_rows (length sc) pos) pos arrs)) ivs with
+          | Some (d0 :: ds) =>
+              Some (st, (f, SegSOS sc psv 0 0 pt d0 (combine (map (fun k => nth k rf O) (seq 0 (length ds))) ds)))
+          | _ => None
+          end
+        end
+      end
+  end.
+
+Fixpoint lw_walk (im : limage) (st : lstate) (its : list litem) : option (list (nat * segment)) :=
+  match its with
+  | [] => Some []
+  | it :: t =>
+    match lw_step im st it with
+    | None => None
+    | Some (st', fs) => match lw_walk im st' t with Some l => Some (fs :: l) | None => None end
+    end
+  end.
+
+Definition t81_emit_lossless (its : list litem) (eoi_fill : nat) (im : limage) : option (list Z) :=
+  match lw_walk im ls0 its with
+  | Some segs => Some (emit_stream {| st_segs := segs; st_eoi_fill := eoi_fill |})
+  | None => None
   end.
